@@ -423,18 +423,22 @@ func (x *Exec) havocArray(st *State, name, below string, except []string) {
 		return
 	}
 	old := x.getArr(st, name, srt)
-	nw := x.declare(st, name, srt)
-	st.heap[name] = nw
-	q := x.fresh("r")
+	raw := x.declare(st, name+"_h", srt)
 	// the nil object (reference 0) is never written, whatever the modifies clause evaluates to
 	var notMod []string
 	for _, m := range except {
-		notMod = append(notMod, not(modMatch(q, m)))
+		notMod = append(notMod, not(modMatch("r!", m)))
 	}
-	cond := and(app("<", q, below), or(eq(q, "0"), and(notMod...)))
-	x.assume(st, "(forall (("+q+" Int)) (! (=> "+cond+" (= (select "+nw+" "+q+") (select "+old+" "+q+"))) :pattern ((select "+nw+" "+q+"))))")
+	keep := and(app("<", "r!", below), or(eq("r!", "0"), and(notMod...)))
+	es := strings.TrimSuffix(strings.TrimPrefix(srt, "(Array Int "), ")")
+	// quantifier-free frame: old objects that may not be written keep their content (array lambda)
+	nw := x.declare(st, name, srt) // a plain constant, so that it can appear in quantifier patterns
+	st.add("(assert (= " + nw + " (lambda ((r! Int)) (ite " + keep + " (select " + old + " r!) (select " + raw + " r!)))))")
+	_ = es
+	st.heap[name] = nw
 	if name == "MC" {
-		x.assume(st, "(forall (("+q+" Int)) (! (>= (select "+nw+" "+q+") 0) :pattern ((select "+nw+" "+q+"))))")
+		q := x.fresh("r")
+		x.assume(st, "(forall (("+q+" Int)) (! (>= (select "+raw+" "+q+") 0) :pattern ((select "+raw+" "+q+"))))")
 	}
 }
 
